@@ -2,6 +2,6 @@ SPECIFICATION TraceSpec
 CONSTANTS
   Agents = {"a1", "a2", "a3", "a4"}
   MaxOps = 1000000
-INVARIANTS AtMostOneParent LinksMatch NoDupLinks Acyclic DbMirror DiedDetaches Completes
+INVARIANTS AtMostOneParent LinksMatch NoDupLinks Acyclic DbMirror DiedDetaches Completes RestartKeeps
 POSTCONDITION TraceAccepted
 CHECK_DEADLOCK FALSE
